@@ -7,7 +7,7 @@ degenerate 0xn / nx0 (which the vector-of-vector classes cannot represent: they 
 integer-valued entries (small range, so that ties and exact arithmetic occur; compared exactly with
 the textbook definition evaluated in Rat) and real entries (compared bit-exactly with the Float
 instantiation of the model and with the definition within the running error bound).  About one
-operation in eight is non-conformable.  `lap`: cost matrices up to 7x7, integer (narrow ranges:
+operation in eight is non-conformable.  `lap`: cost matrices up to 7x7 (a few up to 14x14), integer (narrow ranges:
 many ties) and real; thorough also enumerates all 0..2 matrices up to 3x3.
 """
 import random, struct, itertools
@@ -332,6 +332,31 @@ def generate(seed, tier):
                     v[r * n + j] = lo - 1
             ops.append("lap %d %d %s" % (n, n, " ".join(hx(x) for x in v)))
         cases.append([case_line(rng, "lapdeg%d" % i)] + ops)
+    # nearly tied costs: small integers plus a few multiples of a tiny quantum.  The augmenting row
+    # reduction then lowers a column price by the quantum per re-assignment (a "price war"): before
+    # the repair recorded in findings/C04.json the routine needed ~ range/quantum steps (did not
+    # return for quantum = 2^-52); now the chain is cut after dim scans per free row.
+    for i in range(40 if tier == "thorough" else 10):
+        ops = []
+        for _ in range(12):
+            n = rng.choice([3, 4, 4, 5, 6, 7])
+            q = rng.choice([2.0 ** -52, 2.0 ** -51, 2.0 ** -40, 2.0 ** -20, 2.0 ** -8, 0.25])
+            hi = rng.choice([1, 2, 3])
+            v = [float(rng.randint(0, hi)) + (q * rng.randint(0, 5) if rng.random() < 0.3 else 0.0) for _ in range(n * n)]
+            ops.append("lap %d %d %s" % (n, n, " ".join(hx(x) for x in v)))
+        cases.append([case_line(rng, "lapwar%d" % i)] + ops)
+    # larger problems (no brute force beyond 7x7: the certificate alone is evaluated)
+    for i in range(12 if tier == "thorough" else 3):
+        ops = []
+        for _ in range(6):
+            n = rng.choice([8, 9, 10, 12, 14])
+            if rng.random() < 0.6:
+                lo, hi = rng.choice([(0, 1), (0, 3), (-2, 4), (0, 20)])
+                v = [float(rng.randint(lo, hi)) for _ in range(n * n)]
+            else:
+                v = [rng.uniform(-5, 5) for _ in range(n * n)]
+            ops.append("lap %d %d %s" % (n, n, " ".join(hx(x) for x in v)))
+        cases.append([case_line(rng, "lapbig%d" % i)] + ops)
     # ---- random -------------------------------------------------------------------------------
     for cidx in range(N):
         f = rng.random()
@@ -368,9 +393,12 @@ def compare(op_line, impl, model):
     m = model.strip()
     if m == "ub":
         return impl.startswith("crash") or impl.startswith("hang")
-    if m == "relational":
-        # lap: the model is the specification (certificate), judged by the verdict
-        return impl.startswith("cost ")
+    if m == "hang":
+        # lap: a loop of the transcription ran out of fuel
+        return impl.startswith("hang")
+    if m == "inf":
+        # lap on non-finite costs: the sentinel +inf entered the arithmetic (outside the model)
+        return True
     return " ".join(impl.split()) == " ".join(m.split())
 
 
@@ -406,7 +434,8 @@ def coverage_extra(cases, answers):
                     im = [min(range(n), key=lambda i: (vals[i * n + j], i)) for j in range(n)]
                     if len(set(im)) == n:
                         lap_transcribed += 1
-    return {"lap_inputs_in_transcribed_domain": lap_transcribed, "first_operand_shapes": dict(sorted(shapes.items())), "storage_triples_used": len(kinds),
+    lap_compared = sum(1 for c, a in zip(cases, answers) for l, r in zip(c[1:], a or []) if l.startswith("lap ") and r.startswith("cost "))
+    return {"lap_answers_compared_bit_for_bit": lap_compared, "lap_inputs_without_free_row_after_column_reduction": lap_transcribed, "first_operand_shapes": dict(sorted(shapes.items())), "storage_triples_used": len(kinds),
             "storage_triples": dict(sorted(kinds.items())), "lap_sizes": dict(sorted(lapn.items())),
             "dimension_errors_raised": nonconf, "aborted_on_contract_violation": crashed,
             "integer_cases": integer_cases, "real_cases": real_cases}
